@@ -1,5 +1,5 @@
 """C07 — program-level three-way comparison (Go interpreter, Lean model evaluator, Lean spec semantics)."""
-from props import progs, sites
+from props import progs, sites, callcopy
 from props.progs import replay  # noqa
 
 GEN = 'copy'
@@ -16,6 +16,10 @@ RULE = ("histories: build nested lists/dictionaries (dictionaries of 3–4 keys 
         "literals changed after being bound (also: bound, copied, a key removed through one of the two names), number literals changed "
         "in place where they stand (receiver of 自增/自减, literal argument of a callee that bumps its input, item of a list / dictionary "
         "literal). Non-trivial = at least one copy and one later mutation in the history.")
+RULE += (" Stream `callcopy` (props/callcopy.py): a name / new name / element / key / 对象之属性 / 其属性 assigned the RESULT OF A CALL that "
+         "yields a value another holder has (a method handing back its argument, a part of it, an outer variable, 其属性, also at the end "
+         "of a chain; 读取, 写入, 自增 / 自减), then source and target changed in place at nesting level 0–2 (自增 自减 后增 前增 # 写入 移除), "
+         "everything displayed after each step.")
 ASSUMPTIONS = ["Go slice backing arrays are not modelled (the one sharing site, 合并, was repaired)",
                "method arguments and 得到 bind references in the real code; the property does not name them and generators do not mutate through them",
                "生成JSON is outside the evaluator model / spec semantics (imports): the order-dependent views used are display, 所有索引, 所有值 and 遍历"]
@@ -30,3 +34,10 @@ def run(ctx):
     for k, v in sorted(g.stats.items()):
         ctx.count('copy-gen:' + k, v)
     progs.run_stream(ctx, 'copy', ps, nontrivial=lambda src, go: src.count('设为量') + src.count(' = 量') >= 1 and ('后增' in src or '#' in src))
+    # call results stored by plain assignment, then one of the two holders changed in place (props/callcopy.py); after the copy
+    # stream, so that the copy stream of a given seed is what it was
+    qs = callcopy.programs(g, ctx.n(300, 9000))
+    for k, v in sorted(g.stats.items()):
+        if k.startswith('callcopy:'):
+            ctx.count('gen-' + k, v)
+    progs.run_stream(ctx, 'callcopy', qs, nontrivial=callcopy.nontrivial)
